@@ -190,6 +190,11 @@ class _A1:
         txt = self._norm_cache.get(id(t))
         if txt is None:
             txt = self._norm_cache[id(t)] = norm(t)
+        # the input is absent on this path: there is nothing that could be misaligned
+        if isinstance(t, ast.Compare) and len(t.ops) == 1 and isinstance(t.left, ast.Name) and t.left.id in aliases \
+                and isinstance(t.comparators[0], ast.Constant) and t.comparators[0].value is None:
+            if (isinstance(t.ops[0], ast.Is) and pol is True) or (isinstance(t.ops[0], ast.IsNot) and pol is False):
+                facts.update({"LEN", "IDX"})
         # a mask that is not boolean (slice / positions) carries no length or index requirement
         if q in MASK_PARAMS and "is_bool_dtype(" in txt and pol is False and self._mentions(t, aliases):
             facts.update({"LEN", "IDX"})
